@@ -541,6 +541,7 @@ func runC18(c *Check) {
 	ruleTextCodecsInverse(c, p)
 	ruleDecodeHooksPassValuesOn(c, p, "C18-R12")
 	ruleFlagsBoundBeforeFileRead(c, p, "C18-R13")
+	ruleFlagsHaveTheLastWord(c, p, "C18-R14")
 }
 
 // ruleFlagsBoundBeforeFileRead (C18-R13): while the flags are bound, the loader copies every value
@@ -1237,4 +1238,104 @@ func ruleWriterWritesEveryValue(c *Check, p *Prog) {
 			}
 		}
 	}
+}
+
+// ruleFlagsHaveTheLastWord (C18-R14): the loader that merges a caller's (flag-bound) viper with
+// the configuration file builds the merged settings by writing both into one viper. What is
+// written last wins: no value taken from the file is written after a value taken from the
+// caller's viper (unless behind a test that the merged viper does not have the key yet), and the
+// copy of the caller's values is not made conditional on what another viper holds.
+func ruleFlagsHaveTheLastWord(c *Check, p *Prog, rule string) {
+	c.Doc(rule, "EO+GA: in the loader that merges the caller's viper with the file, no Set of a value read from the file viper is reachable after a Set of a value read from the caller's viper (except behind a test that the merged viper itself lacks the key), and the copy of the caller's values is conditional on nothing but the key's text: the command line always outranks the file.")
+	fn := p.Func(configPkg + ".LoadFromViper")
+	if fn == nil {
+		c.OK(rule, "LoadFromViper", "", "", "no loader merges a caller's viper with the file", false)
+		return
+	}
+	g := BuildECFG(p, fn, ownPkgOpts(configPkg, 1))
+	c.NoteGraph(g)
+	reads := g.Select(func(n *Node) bool {
+		return strings.HasSuffix(CallName(n), "viper.Viper).ReadInConfig") || strings.HasSuffix(CallName(n), "viper.Viper).MergeInConfig")
+	})
+	if len(reads) == 0 || len(fn.Params) == 0 {
+		c.Unk(rule, "LoadFromViper", fnName(fn), "", "anchor lost: the file read in the merging loader")
+		return
+	}
+	fileV := RecvTerm(reads[0])
+	isGetOn := func(t *Term, which func(*Term) bool) bool {
+		return p.DeepContains(t, func(x *Term) bool {
+			if x.Op != "call" || !strings.Contains(x.Name, "viper.Viper).Get") || len(x.Args) == 0 {
+				return false
+			}
+			return which(x.Args[0])
+		}, 3)
+	}
+	isFile := func(r *Term) bool { return r != nil && fileV != nil && r.String() == fileV.String() }
+	isInput := func(r *Term) bool {
+		if r == nil {
+			return false
+		}
+		pr, ok := r.V.(*ssa.Parameter)
+		return ok && pr.Parent() == fn
+	}
+	var fileSets, inputSets []*Node
+	for _, n := range g.Select(func(n *Node) bool { return strings.HasSuffix(CallName(n), "viper.Viper).Set") }) {
+		v := ArgTerm(n, 2)
+		if v == nil {
+			continue
+		}
+		switch {
+		case isGetOn(v, isInput):
+			inputSets = append(inputSets, n)
+		case isGetOn(v, isFile):
+			fileSets = append(fileSets, n)
+		}
+	}
+	if len(inputSets) == 0 {
+		c.Bad(rule, "LoadFromViper ⟂ the caller's values are copied", fnName(fn), p.Pos(fn.Pos()), "no value of the caller's viper is written into the merged settings: flags given on the command line are ignored", nil)
+		return
+	}
+	// (a) nothing from the file is written after a caller's value
+	bad := false
+	for _, fs := range fileSets {
+		fs := fs
+		guarded := false
+		merged := RecvTerm(fs)
+		for _, f := range g.NecessaryEdges(func(n *Node) bool { return n == fs }) {
+			t, pol := normFact(f.Cond, f.Pol)
+			if !pol && t.Op == "call" && strings.HasSuffix(t.Name, "viper.Viper).IsSet") && len(t.Args) >= 2 && merged != nil && t.Args[0].String() == merged.String() && t.Args[1].String() == ArgTerm(fs, 1).String() {
+				guarded = true
+			}
+		}
+		if guarded {
+			continue
+		}
+		if path := g.PathAvoiding(inputSets, func(n *Node) bool { return n == fs }, nil); path != nil {
+			bad = true
+			c.Decide(rule, "LoadFromViper ⟂ no file value is written after a caller's value", fnName(fn), p.InstrPos(fs.In), "",
+				"a value read from the configuration file is written into the merged settings after the caller's (command-line) values, without a test that the merged settings lack that key: for every option the file mentions, the file outranks the flag", g, path)
+		}
+	}
+	if !bad {
+		c.OK(rule, "LoadFromViper ⟂ no file value is written after a caller's value", fnName(fn), p.InstrPos(inputSets[0].In), fmt.Sprintf("%d file copies, %d copies of the caller's values: the caller's values are written last", len(fileSets), len(inputSets)), true)
+	}
+	// (b) the copy of the caller's values depends on the key's text only
+	for i, is := range inputSets {
+		is := is
+		why := ""
+		for _, f := range g.NecessaryEdges(func(n *Node) bool { return n == is }) {
+			if p.DeepContains(f.Cond, func(x *Term) bool {
+				return x.Op == "call" && strings.Contains(x.Name, "viper.Viper).") && !strings.HasSuffix(x.Name, ").AllKeys")
+			}, 4) {
+				why = trunc(f.Cond.String(), 100)
+			}
+		}
+		inst := fmt.Sprintf("LoadFromViper ⟂ caller's value copied unconditionally#%d", i+1)
+		if why == "" {
+			c.OK(rule, inst, fnName(fn), p.InstrPos(is.In), "the copy is conditional on nothing but the key's text", true)
+		} else {
+			c.Bad(rule, inst, fnName(fn), p.InstrPos(is.In), "the caller's value is copied into the merged settings only under a test on what a viper holds ("+why+"): an option given on the command line can be left to the file's value", nil)
+		}
+	}
+	c.MinInstances(rule, 2)
 }
